@@ -12,10 +12,15 @@
    a block, trailing comment on a column-0 header, trailing comment on elif/else/except) are now
    covered by positive theorems; their former witnesses are kept as Examples.  The dispatch table is
    the parser WITH the repair "fix: translate `continue` instead of silently dropping it": the three
-   `continue` kinds left DispatchSpec.known_gaps and are pinned (C07_continue_accounted). *)
+   `continue` kinds left DispatchSpec.known_gaps and are pinned (C07_continue_accounted).
+
+   Firmware side: Lang/EmitBlocks.v models what _emit_block / emit() write for the control-flow
+   nodes (one stanza per branch, loop and handler, ALSO when its body emitted nothing) and, as
+   specification, how C++ groups lines into compound statements and under which conditions each
+   line then runs; the theorems say that the block tree of the firmware is Python's block tree. *)
 From Coq Require Import ZArith List Bool.
-From RV Require Import Base.Wire Base.Text Lang.Lex Lang.PyLayout Lang.Layout Lang.DispatchSpec Gen.Dispatch.
-From RV Require Import Proofs.LexP Proofs.RelayoutP Proofs.RoundTripP Proofs.C07P.
+From RV Require Import Base.Wire Base.Text Lang.Lex Lang.PyLayout Lang.Layout Lang.DispatchSpec Lang.EmitBlocks Gen.Dispatch.
+From RV Require Import Proofs.LexP Proofs.RelayoutP Proofs.RoundTripP Proofs.C07P Proofs.EmitBlocksP Proofs.FirmwareBlocksP.
 Import ListNotations.
 Open Scope Z_scope.
 
@@ -192,3 +197,68 @@ Theorem C07_dispatch_total_refuted :
   /\ forall p, In p known_gaps -> gap_real p = true.
 Proof. exact (conj dispatch_total_refuted dispatch_gaps_real). Qed.
 Print Assumptions C07_dispatch_total_refuted.
+
+(* ---------------------------------------------------------------- the firmware keeps the block structure *)
+
+(* read the way C++ reads them, the lines _emit_block writes for a list of nodes are exactly the
+   compound statements of the nodes: one `if`/`else if` per branch of every IfStatement (whether
+   or not its body emitted a line), `else` iff the else body holds a node, one block per loop,
+   try and handler, each around its own lines, in order - at every indentation, for every IR
+   whose simple nodes emit closed pieces of C++ *)
+Theorem C07_emit_block_structure : forall ind ns,
+  is_blank ind = true -> irs_ok ns = true ->
+  c_read (emit_list ind ns) = Some (irs_c ns).
+Proof. exact emit_block_structure. Qed.
+Print Assumptions C07_emit_block_structure.
+
+(* the sketch: every function, setup() and loop() is one top-level compound statement around its nodes *)
+Theorem C07_sketch_sections_structure : forall ss,
+  sections_ok ss = true -> c_read (emit_sections ss) = Some (sections_c ss).
+Proof. exact emit_sections_structure. Qed.
+Print Assumptions C07_sketch_sections_structure.
+
+(* from Python's block tree (what the lexical layer hands over, C07_roundtrip_partial) through the
+   IR to the firmware: the compound statements of the firmware are Python's blocks, header by
+   header; nothing is assumed about the statement layer (tr, cx, fv, fn, ex arbitrary) except that
+   a simple statement becomes closed pieces of C++ *)
+Theorem C07_firmware_blocks_are_pythons_partial : forall tr cx fv fn ex ind ns,
+  is_blank ind = true -> chain_ok tr PvNone ns = true ->
+  c_read (emit_list ind (to_ir tr cx fv fn ex ns)) = Some (py_cs tr cx fv fn ex ns).
+Proof. exact firmware_blocks_are_pythons. Qed.
+Print Assumptions C07_firmware_blocks_are_pythons_partial.
+
+(* ... and from ANY layout of the script inside the guard: lines -> skeleton -> IR -> firmware *)
+Theorem C07_layout_to_firmware_partial : forall tr cx fv fn ex u ns ind,
+  layout_ok u ns = true -> is_blank ind = true -> chain_ok tr PvNone (map lerase ns) = true ->
+  c_read (emit_list ind (to_ir tr cx fv fn ex (map erase (parse_lines (render_list (ind_unit u) O ns)))))
+  = Some (py_cs tr cx fv fn ex (map lerase ns)).
+Proof. exact layout_to_firmware. Qed.
+Print Assumptions C07_layout_to_firmware_partial.
+
+(* every line of the firmware runs under the conditions Python gives its statement: a member of an
+   if chain under its own condition and the negation of every earlier condition of the chain *)
+Theorem C07_firmware_paths_are_pythons_partial : forall tr cx fv fn ex ind ns,
+  is_blank ind = true -> chain_ok tr PvNone ns = true ->
+  fw_paths (emit_list ind (to_ir tr cx fv fn ex ns)) = Some (py_paths tr cx fv fn ex [] [] ns).
+Proof. exact firmware_paths_are_pythons. Qed.
+Print Assumptions C07_firmware_paths_are_pythons_partial.
+
+(* non-vacuity and the shape at stake: `if a: s1 / elif b: pass / elif c: print(..) / else: s2` -
+   both do-nothing branches keep their `else if` stanza, so s2 runs under not a, not b, not c *)
+Example C07_empty_elif_kept :
+  chain_ok ex_tr PvNone ex_chain = true
+  /\ c_read (emit_list s_two (to_ir ex_tr ex_cx ex_cx ex_cx ex_cx ex_chain))
+     = Some [CBlock (h_if [97]) [CLine [115;49;59]]; CBlock (h_else_if [98]) []; CBlock (h_else_if [99]) [];
+             CBlock s_else [CLine [115;50;59]]]
+  /\ fw_paths (emit_list s_two (to_ir ex_tr ex_cx ex_cx ex_cx ex_cx ex_chain))
+     = Some [([PChain [] (Some [97;41])], [115;49;59]);
+             ([PChain [[97;41]; [98;41]; [99;41]] None], [115;50;59])].
+Proof. exact empty_elif_kept. Qed.
+Print Assumptions C07_empty_elif_kept.
+
+(* a firmware that leaves out the stanza of a do-nothing `elif` (as a C++ reader sees it) lets the
+   else branch run when that elif's condition holds: its paths differ from Python's *)
+Example C07_dropped_elif_moves_else :
+  fw_paths ex_dropped <> Some (py_paths ex_tr ex_cx ex_cx ex_cx ex_cx [] [] ex_chain).
+Proof. exact dropped_elif_moves_else. Qed.
+Print Assumptions C07_dropped_elif_moves_else.
